@@ -427,6 +427,10 @@ pub enum Expression {
     Identifier(Identifier),
     This(Span),
     Super(Span),
+    /// `new.target`
+    NewTarget(Span),
+    /// `#name in object` (brand check)
+    PrivateIn(Box<PrivateInExpression>),
 
     // Operations
     Unary(UnaryExpression),
@@ -468,7 +472,8 @@ impl Expression {
             Expression::Template(t) => t.span,
             Expression::TaggedTemplate(t) => t.span,
             Expression::Identifier(i) => i.span,
-            Expression::This(s) | Expression::Super(s) => *s,
+            Expression::This(s) | Expression::Super(s) | Expression::NewTarget(s) => *s,
+            Expression::PrivateIn(p) => p.span,
             Expression::Unary(u) => u.span,
             Expression::Binary(b) => b.span,
             Expression::Logical(l) => l.span,
@@ -648,6 +653,13 @@ pub enum UnaryOp {
     Typeof, // typeof
     Void,   // void
     Delete, // delete
+}
+
+#[derive(Debug, Clone)]
+pub struct PrivateInExpression {
+    pub name: Identifier,
+    pub object: Rc<Expression>,
+    pub span: Span,
 }
 
 #[derive(Debug, Clone)]
